@@ -257,7 +257,29 @@ def r_paths_reach_resolution_as_written(r, prog):
         r.finding('option-value-rewritten:%s' % extra[0].rsplit('::', 1)[-1], prog.fns[extra[0]].span, 'the options module has gained %s: a value parser or helper through which command-line values pass before they are stored' % extra)
     else:
         r.ok('the only function of the options module through which a value passes is the generator-specification parser')
-    r.floor(1)
+    # a bare path on the command line is a source: the positional argument is the only one that takes several values per occurrence; every
+    # option (-R, -G, -D, -A) takes exactly one, so it cannot swallow the sources written after it
+    aa = [f for k, f in prog.fns.items() if re.match(r'^<slicec::slice_options::SliceOptions as clap_builder::derive::Args>::augment_args$', k)]
+    if len(aa) != 1:
+        raise AnchorMissing('<SliceOptions as clap::Args>::augment_args')
+    f = aa[0]
+    live = lambda c: not f.blocks[c.bb].get('cleanup')
+    nas = [c for c in f.calls() if c.name() == 'num_args' and live(c)]
+    acts = [c for c in f.calls() if c.name() == 'action' and live(c)]
+    named = [c for c in f.calls() if c.name() in ('short', 'long') and live(c)]
+    if len(nas) < 4 or len(acts) < 6 or not named:
+        raise AnchorMissing('num_args / action calls in augment_args (found %d / %d)' % (len(nas), len(acts)))
+    variadic = [c for c in nas if vexpr(f, c.args[1]) != '1']
+    # an argument's own calls lie between its action(..) call and the next one; the derived num_args of a Vec positional precedes its action
+    def owner(c):
+        before = [a for a in acts if f.dominates(a.bb, c.bb)]
+        return len(before)
+    bad = [c for c in variadic if owner(c) != 0 or any(owner(n) == 0 for n in named)]
+    if bad:
+        r.finding('option-takes-several-values', bad[0].span, 'an option of SliceOptions is declared with num_args = %s: bare paths written after it are taken as its values, not as sources (only the positional argument may take several values)' % vexpr(f, bad[0].args[1])[:60])
+    else:
+        r.ok('only the positional sources argument takes several values per occurrence; %d options take exactly one' % (len(nas) - len(variadic)))
+    r.floor(2)
 
 
 def r_directory_walk_once(r, prog):
@@ -307,7 +329,18 @@ def r_unusable_paths_reported(r, prog):
         r.ok('a listed path reaches the walk only if it is a file or a directory; anything else has been reported and skipped')
     else:
         r.finding('unusable-path-dropped-silently', call[0].span, 'find_slice_files can hand a path that is neither a file nor a directory to the walk, which ignores it: such a path (a device, pipe, socket) is dropped without a diagnostic')
-    r.floor(1)
+    # ... and every pass of the loop over the listed paths ends in one or the other: the walk, or a diagnostic pushed (a path that does not
+    # exist, whether it was listed as a source or as a reference, is an error and not a silent `continue`)
+    pushes = [c for c in f.calls() if c.name() == 'push_into' and not f.blocks[c.bb].get('cleanup')]
+    if lp is None:
+        raise AnchorMissing('the loop over the listed paths')
+    head, body = lp
+    some = [arm(e, 1) for e in enum_switches(f) if e['bb'] in body and loop_of(f, e['bb'])[0] == head and 1 in e['arms'] and any(f.dominates(n.bb, e['bb']) and n.bb in body for n in nx)]
+    if some and pushes and must_pass(f, some[0], [head], [call[0].bb] + [c.bb for c in pushes], within=body):
+        r.ok('every listed path is walked or reported (%d reporting sites): no pass of the loop ends without one of the two' % len(pushes))
+    else:
+        r.finding('listed-path-skipped-silently', f.span, 'find_slice_files can go on to the next listed path without walking the current one and without pushing a diagnostic: a path that cannot be used is dropped silently')
+    r.floor(2)
 
 import decisions
 
